@@ -10,7 +10,10 @@ use std::io::Seek;
 use std::io::Write;
 use std::path::PathBuf;
 use std::time::Duration;
+#[cfg(not(feature = "verif_sim"))]
 use std::time::Instant;
+#[cfg(feature = "verif_sim")]
+use crate::verif_sim::Instant;
 
 use anyhow::Context;
 use anyhow::Result;
